@@ -205,7 +205,7 @@ static void run_solver(const Case<N>& c) {
   char api[80];
   std::snprintf(api, sizeof api, "%s<%d,%s>", S::name, int(N), TName<real>::v);
   const char* SS = SN[c.st];
-  vf::set_case(api, SS, c.idx);
+  vfx::set_case(api, SS, c.idx);
   const L d = S::delta(real{});
   // upper bound of any tolerance: O(1) errors are never accepted, whatever the gap
   const L cap = std::max<L>({1e-3L, 2 * d, 16 * std::sqrt(L(std::numeric_limits<real>::epsilon()))});
@@ -239,7 +239,7 @@ static void run_solver(const Case<N>& c) {
   };
   // ---- eigenvalues only
   if (!guarded([&] { c.s.template computeEigenValues<es>(vp, B); })) {
-    std::snprintf(g_msg, sizeof g_msg, "[assert] computeEigenValues: %s", g_why);
+    std::snprintf(g_msg, sizeof g_msg, "[%s] computeEigenValues: %s", g_kind, g_why);
     R.check(api, SS, c.idx, c.h, INFINITY, 0, dump, g_msg);
   } else {
     const L e = sorted_err(vp);
@@ -248,7 +248,7 @@ static void run_solver(const Case<N>& c) {
   }
   // ---- eigenvalues and eigenvectors
   if (!guarded([&] { c.s.template computeEigenVectors<es>(vp2, m, B); })) {
-    std::snprintf(g_msg, sizeof g_msg, "[assert] computeEigenVectors: %s", g_why);
+    std::snprintf(g_msg, sizeof g_msg, "[%s] computeEigenVectors: %s", g_kind, g_why);
     R.check(api, SS, c.idx, c.h, INFINITY, 0, dump, g_msg);
     return;
   }
